@@ -1,5 +1,6 @@
 """C17: every error points at the token that caused it."""
 from .xsbase import *
+from . import lib
 
 FILL = [' ', '  ', '\t', '\n', '\r\n', '\n\n', '\\ note é\n', '\\( block\n comment \\)\n', '1 drop ', '"é日" drop ', 'nil drop\t', '\r\n\t ',
         '"multi\\nline" drop ', '|ff 00| drop\n']
@@ -133,6 +134,41 @@ class C17(XsProp):
             case = ' | '.join(steps)
             cs.append(case)
             self.expect[case] = (1, expected_loc(text, a, b), text, cul)
+        # included text: the failing token is in a file read with `include` (implementation only: file access is outside the model) -
+        # read once, read twice (the later reading redefines the word that fails), and reached from a later source
+        import os
+        scratch = os.path.join(lib.HARNESS, 'target', 'scratch')
+        os.makedirs(scratch, exist_ok=True)
+        for f_ in os.listdir(scratch):
+            if f_.startswith('c17_') and not f_.startswith('c17_%d_' % os.getpid()):
+                try:
+                    os.remove(os.path.join(scratch, f_))
+                except OSError:
+                    pass
+        for i in range(40 if tier == 'quick' else 400):
+            cul, core = rng.choice([('+', '"a" 1 {C}'), ('/', '1 0 {C}'), ('assert', 'false {C}'), ('nth', '[ 1 ] 5 {C}'), ('neg', '"s" {C}'), ('zzqq', '{C}')])
+            pre = ''.join(' ' + rng.choice(FILL) for _ in range(rng.randint(0, 4))) + ' '
+            if cul == 'zzqq':
+                ftext = pre + '1 2 + drop\n' + core + ' 5'         # a build error inside the file
+            else:
+                ftext = pre + ': wq %s ;' % core + rng.choice(['', ' 1 drop', '\n'])
+            ci = ftext.index('{C}')
+            ftext = ftext.replace('{C}', cul, 1)
+            a = len(ftext[:ci].encode('utf-8'))
+            b = a + len(cul.encode('utf-8'))
+            path = os.path.join(scratch, 'c17_%d_%d.xeh' % (os.getpid(), i))
+            with open(path, 'w', encoding='utf-8', newline='') as fh:
+                fh.write(ftext)
+            inc = 'include "%s"' % path
+            if cul == 'zzqq':
+                srcs = rng.choice([[inc], ['1 2', inc], [' \n ' + inc + ' 7']])
+            else:
+                srcs = rng.choice([[inc + ' wq'], [inc, 'wq'], [inc + ' ' + inc + ' wq'], [inc, inc, ' wq'], [inc, '1 drop', inc + '\n: z wq ; z'],
+                                   [inc, 'require "%s" wq' % path], [inc + ' #( wq #)']])
+            steps = ['xp limits 6000 - -'] + ['eval %s' % hexsrc(g) for g in srcs] + ['errloc', 'pretty']
+            case = ' | '.join(steps)
+            cs.append(case)
+            self.expect[case] = (path, expected_loc(ftext, a, b), ftext, cul)
         # the failing word lives in an EARLIER source and is reached from a later one (directly, through a definition, or from a
         # meta block): the report must name the earlier buffer and the token inside the definition
         for i in range(n // 6):
@@ -166,7 +202,7 @@ class C17(XsProp):
             if res == 'ok':
                 fails.append(('case: %s\nsource: %r' % (c, text), 'the planted failure did not fail'))
                 continue
-            want = 'loc:<buffer#%d>:%d:%d:%d-%d:%d-%d' % ((bufno,) + exp)
+            want = 'loc:%s:%d:%d:%d-%d:%d-%d' % (('<buffer#%d>' % bufno if isinstance(bufno, int) else bufno,) + exp)
             if loc != want:
                 fails.append(('case: %s\nsource: %r\nculprit: %s\nreported: %s\nexpected: %s' % (c, text, cul, loc, want),
                               'the reported location is not the culprit token'))
